@@ -546,3 +546,7 @@ def replay(path):
         print("VIOLATION property=%s replay=%s" % (PROP, path))
         print("  sig=%s :: %s" % (v["sig"], v["msg"][:300]))
     return 1 if res.violations else 0
+
+
+# (what later rounds of seeded changes added to the workload; part of the evidence's description of the check)
+RULE += "; " + 'dot-named collections; a calendar of more than 1000 events restored with the git CLI under the running server must be listed exactly by PROPFIND, sync-collection and calendar-query'
